@@ -124,7 +124,11 @@ def run_tree(case, ctx):
         if src in t and isinstance(dict.__getitem__(t, src), dict):
             dict.__setitem__(t, dst, dict.__getitem__(t, src))
     eb = case.get('empty_branch')
-    if eb:
+    if eb == 'subclass':
+        # below the root t also holds a branch whose type is a subclass of dict (an OrderedDict): a branch like any other for the merge, and not to be written into
+        import collections
+        dict.__setitem__(t, 'ob', collections.OrderedDict([('x', 1), ('y', collections.OrderedDict([('z', 2)]))]))
+    elif eb:
         # t also holds a branch without leaves (that u never writes into): a merge keeps it like everything else of t
         dict.__setitem__(t, 'eb', {} if eb == 'flat' else {'x': {}, 'y': 1})
     mt = plainify(t)
@@ -165,6 +169,8 @@ def run_tree(case, ctx):
     # ---- update
     if 'u' in case:
         u = codec.dec(case['u'])
+        if eb == 'subclass':
+            dict.__setitem__(u, 'ob', {'x': 5, 'w': 6, 'y': {'v': 7}})
         mu = plainify(u)
         ignore = codec.dec(case['ignore']) if case.get('ignore') is not None else None
         su = idsnap(u)
@@ -301,11 +307,11 @@ def gen_case(rng):
         if case['alias'][0] == case['alias'][1]:
             del case['alias']
     if rng.random() < 0.1 and 'alias' not in case:
-        case['empty_branch'] = rng.choice(['flat', 'nested'])
+        case['empty_branch'] = rng.choice(['flat', 'nested', 'subclass', 'subclass'])
     if rng.random() < 0.8 or case.get('empty_branch'):
         case['u'] = gen_tree(rng, rng.randint(1, 4), rng.choice(['dict', 'dict', 'Dict', 'dictattr']), keys)
         if rng.random() < 0.35:
-            case['ignore'] = rng.choice([[None], [None, 0], [0, ''], [None, 'x', 1], ['y']])
+            case['ignore'] = rng.choice([[None], [None, 0], [0, ''], [None, 'x', 1], ['y'], [[]], [[1, 2]], [[], None]])       # a leaf may be a list, so may an ignored value
     return case
 
 
